@@ -108,6 +108,9 @@ func packageNameOf(dir string) (string, error) {
 	return "", fmt.Errorf("no package clause found in %s", dir)
 }
 
+// gEagerSSA: build the SSA of every loaded package up front (check json "eager_ssa").
+var gEagerSSA bool
+
 func (o *overlaySet) packagesOverlay() map[string][]byte {
 	m := map[string][]byte{}
 	for v, r := range o.virt {
@@ -195,6 +198,19 @@ func loadPackage(pkgDir string, ov *overlaySet) (*Loaded, error) {
 		return nil, fmt.Errorf("no target package for %s", pkgDir)
 	}
 	target.Build()
+	// Lazily built packages (first call into fmt, time, ... reached while exploring http2's server code) made
+	// x/tools' builder fail its own sanity check on a generic instance ("(http2.writeWindowUpdate).isNaN[int] has 2
+	// parameters in signature but 1 after building"). Building before any exploration avoids that: fmt always
+	// (cheap), the whole program when the check asks for it ("eager_ssa": true in the check json).
+	if gEagerSSA {
+		prog.Build()
+	} else {
+		for _, p := range prog.AllPackages() {
+			if p.Pkg.Path() == "fmt" {
+				p.Build()
+			}
+		}
+	}
 	ld := &Loaded{prog: prog, pkg: target, loadSecs: loadSecs, ssaSecs: time.Since(t1).Seconds(), npkgs: len(prog.AllPackages())}
 	cmd := exec.Command("go", "version")
 	cmd.Dir = gRepo
